@@ -14,6 +14,9 @@ mod plan_w;
 mod patch_w;
 mod engine_w;
 mod cli_w;
+mod proto_w;
+#[global_allocator]
+static GLOBAL: proto_w::Tracking = proto_w::Tracking;
 /// the CLI's modules, #[path]-included unedited from the tree under check
 #[allow(dead_code, unused_imports, clippy::all)]
 pub mod cli {
@@ -77,6 +80,14 @@ fn search(contract: &str, seed: u64, budget: u64) -> i32 {
     if c == "greedy" {
         return engine_w::search_pairs(true, seed, budget, false);
     }
+    if c.contains("FrameHeader::") || c.contains("MessageType::") || c == "header" {
+        return proto_w::search_header();
+    }
+    if c.contains("Codec::") || c == "codec" {
+        let r = proto_w::search_header();
+        if r != 0 { return r; }
+        return proto_w::search_codec();
+    }
     if c.starts_with("run_") || c.starts_with("cli") {
         return cli_w::search(c, seed, false);
     }
@@ -101,6 +112,8 @@ fn run(w: &str) -> i32 {
         "glob" => glob_w::run(w),
         "patch" => patch_w::run(w),
         "cli" => cli_w::run_w(w),
+        "header" => proto_w::run_header(w),
+        "codec" => proto_w::run_codec(w),
         "pair" => engine_w::run_pair(w),
         "siggen" => engine_w::run_siggen(w),
         "sigtable" => { println!("re-run: copia-replay twin signature_table <seed> 1"); 1 }
